@@ -583,8 +583,94 @@ func c10MapAndHandler(id string, depth, subscribers, hcap, values int, seed int6
 	}}
 }
 
+// c10MapAfterSubscribeOn: SubscribeOn(h) is configured on the origin BEFORE Map derives publishers from it (unbuffered
+// and buffered handlers, chains of depth 1..3, SubscribeOn on a middle level as well): every level still delivers
+// fn_L(..fn_1(v)) exactly once per published v, in order, and Publish never wedges the handler.
+func c10MapAfterSubscribeOn(id string, depth, hcap, onLevel, values int) core.Scenario {
+	return core.Scenario{ID: id, Class: "Publisher.SubscribeOn/Map", Run: func(c *core.Ctx) {
+		rep := map[string]any{"scenario": id, "map_depth": depth, "handler_capacity": hcap, "SubscribeOn_set_on_level": onLevel, "values": values}
+		c.Eval(int64(values))
+		c.Distinct(id)
+		var h *fpgo.HandlerDef
+		if hcap == 0 {
+			h = fpgo.Handler.New()
+		} else {
+			h = fpgo.Handler.NewByCh(make(chan func(), hcap))
+		}
+		defer func() { core.Catch(h.Close) }()
+		root := fpgo.PublisherNewGenerics[int]()
+		levels := []*fpgo.PublisherDef[int]{root}
+		if onLevel == 0 {
+			root.SubscribeOn(h)
+		}
+		for dpt := 0; dpt < depth; dpt++ {
+			mul := dpt + 2
+			nx := levels[dpt].Map(func(v int) int { return v*mul + 1 })
+			if onLevel == dpt+1 {
+				nx.SubscribeOn(h)
+			}
+			levels = append(levels, nx)
+		}
+		var mu sync.Mutex
+		got := make([][]int, len(levels))
+		total := 0
+		for li, lv := range levels {
+			li := li
+			lv.Subscribe(fpgo.Subscription[int]{OnNext: func(v int) { mu.Lock(); got[li] = append(got[li], v); total++; mu.Unlock() }})
+		}
+		want := make([][]int, len(levels))
+		done := make(chan struct{})
+		go func() {
+			defer close(done)
+			for v := 0; v < values; v++ {
+				root.Publish(v)
+			}
+			for {
+				mu.Lock()
+				n := total
+				mu.Unlock()
+				if n >= values*len(levels) {
+					return
+				}
+				time.Sleep(200 * time.Microsecond)
+			}
+		}()
+		for v := 0; v < values; v++ {
+			x := v
+			want[0] = append(want[0], x)
+			for dpt := 0; dpt < depth; dpt++ {
+				x = x*(dpt+2) + 1
+				want[dpt+1] = append(want[dpt+1], x)
+			}
+		}
+		verdict, dump := core.AwaitOrStuck(done, 2*time.Second, 60*time.Second, director.Get().Total)
+		mu.Lock()
+		defer mu.Unlock()
+		if verdict == "watchdog" {
+			c.Inconclusive("watchdog in " + id)
+			return
+		}
+		for li := range levels {
+			if !eqSeq(got[li], want[li]) {
+				if verdict == "stuck" {
+					rep["goroutines"] = core.RepoGoroutineSummary(dump)
+				}
+				c.Violationf("map:after-SubscribeOn", rep, "SubscribeOn(handler of capacity %d) was set on level %d before the Map chain (depth %d) was derived; level %d delivered %v, want %v (%s)", hcap, onLevel, depth, li, got[li], want[li], verdict)
+				return
+			}
+		}
+	}}
+}
+
 func c10Scenarios(c *core.Ctx, race bool) []core.Scenario {
 	var out []core.Scenario
+	for depth := 1; depth <= 3; depth++ {
+		for _, hcap := range []int{0, 1, 4} {
+			for onLevel := 0; onLevel < depth; onLevel++ {
+				out = append(out, c10MapAfterSubscribeOn(fmt.Sprintf("map-after-subscribeOn-d%d-cap%d-on%d-race%v", depth, hcap, onLevel, race), depth, hcap, onLevel, 6))
+			}
+		}
+	}
 	if !race {
 		// sequential re-entrant histories, grouped
 		maxK := c.Pick(3, 4)
